@@ -251,6 +251,126 @@ theorem checksOf_agree {D : List Nat} {a b : St} (h : Agree D a b) (hc : Closed 
     simp only [proj, Prod.mk.injEq] at this
     exact this.2.2.2
 
+/-! ### which node a flow controller reads never changes under traffic -/
+
+/-- the resource whose node the controller's read statistic is a view of (if it is one) -/
+def nodeTgt (c : Ctl FlowRule FlowSt) : Option Nat := match c.st.stat with
+  | .node r _ _ => some r
+  | _ => none
+
+theorem closed_iff (D : List Nat) (s : St) :
+    Closed D s ↔ ∀ y ∈ D, ∀ c ∈ s.flow.ctls y, ∀ r, nodeTgt c = some r → r ∈ D := by
+  constructor
+  · intro h y hy c hc r hr
+    unfold nodeTgt at hr
+    cases hs : c.st.stat with
+    | nop => rw [hs] at hr; simp at hr
+    | own a sc iv => rw [hs] at hr; simp at hr
+    | node r' sc iv => rw [hs] at hr; simp at hr; subst hr; exact h y hy c hc r' sc iv hs
+  · intro h y hy c hc r sc iv hs
+    exact h y hy c hc r (by simp [nodeTgt, hs])
+
+theorem throttleCheck_stat (now : Nat) (c : Ctl FlowRule FlowSt) : (throttleCheck now c).2.st.stat = c.st.stat := by
+  unfold throttleCheck
+  simp only []
+  split_ifs <;> rfl
+
+theorem throttleCheckF_stat (now : Nat) (thr : Float) (c : Ctl FlowRule FlowSt) :
+    (throttleCheckF now thr c).2.st.stat = c.st.stat := by
+  unfold throttleCheckF
+  simp only []
+  split_ifs <;> rfl
+
+theorem warmUpAllowed_stat (now : Nat) (p : Float) (c : Ctl FlowRule FlowSt) : (warmUpAllowed now p c).2.st.stat = c.st.stat := by
+  unfold warmUpAllowed
+  simp only []
+  split_ifs <;> rfl
+
+theorem flowCheckOne_stat (now : Nat) (mem : Int) (sum : Nat) (p : Float) (c : Ctl FlowRule FlowSt) :
+    (flowCheckOne now mem sum p c).2.st.stat = c.st.stat := by
+  unfold flowCheckOne
+  simp only []
+  split_ifs <;> first
+    | rfl
+    | exact throttleCheck_stat ..
+    | exact throttleCheckF_stat ..
+    | (rw [throttleCheckF_stat]; exact warmUpAllowed_stat ..)
+    | exact warmUpAllowed_stat ..
+
+theorem flowScan_tgt (now : Nat) (mem : Int) (rd : Ctl FlowRule FlowSt → Nat × Float) (cs : List (Ctl FlowRule FlowSt)) :
+    (flowScan now mem rd cs).2.2.map nodeTgt = cs.map nodeTgt := by
+  induction cs with
+  | nil => rfl
+  | cons c cs ih =>
+    unfold flowScan
+    have hst := flowCheckOne_stat now mem (rd c).1 (rd c).2 c
+    rcases hres : flowCheckOne now mem (rd c).1 (rd c).2 c with ⟨v, c'⟩
+    rw [hres] at hst
+    have ht : nodeTgt c' = nodeTgt c := by unfold nodeTgt; rw [show c'.st.stat = c.st.stat from hst]
+    cases v <;> simp [ht, ih]
+
+theorem flowRecordPass_tgt (now : Nat) (c : Ctl FlowRule FlowSt) : nodeTgt (flowRecordPass now c) = nodeTgt c := by
+  unfold flowRecordPass nodeTgt
+  cases hs : c.st.stat <;> simp [hs]
+
+theorem checks_f_tgt (now : Nat) (mem : Int) (rd : Ctl FlowRule FlowSt → Nat × Float) (node : Arr Nat)
+    (fcs : List (Ctl FlowRule FlowSt)) (hcs : List (Ctl HotRule HotSt)) (ccs : List (Ctl CbRule CbSt)) (q : Req) :
+    (checks now mem rd node fcs hcs ccs q).f.map nodeTgt = fcs.map nodeTgt := by
+  have hscan := flowScan_tgt now mem rd fcs
+  unfold checks
+  rcases hF : flowScan now mem rd fcs with ⟨fb, w, fcs'⟩
+  rw [hF] at hscan
+  simp only [] at hscan ⊢
+  cases fb with
+  | some id => exact hscan
+  | none =>
+    simp only []
+    rcases hotScan now q hcs with ⟨hb, hw, hcs'⟩
+    cases hb with
+    | some id => exact hscan
+    | none =>
+      simp only []
+      rcases cbCheck now ccs with ⟨cbb, ccs'⟩
+      cases cbb with
+      | some id => exact hscan
+      | none =>
+        simp only [List.map_map]
+        rw [← hscan]
+        congr 1
+        funext c
+        exact flowRecordPass_tgt now c
+
+theorem closed_entry (D : List Nat) (s : St) (y : Nat) (err : Bool) (q : Req) (rt : Nat) (h : Closed D s) :
+    Closed D (entry s y err q rt).1 := by
+  rw [closed_iff] at h ⊢
+  obtain ⟨_, hoff, _, hat⟩ := entry_spec s y err q rt
+  intro z hz c hc r hr
+  by_cases hzy : z = y
+  · subst hzy
+    have hf : (entry s z err q rt).1.flow.ctls z = (checksOf s z q).f := by
+      have := congrArg (fun p => p.2.1) hat
+      simp only [proj] at this
+      rw [this]
+      unfold afterEntry
+      cases (checksOf s z q).b <;> rfl
+    rw [hf] at hc
+    have hm : nodeTgt c ∈ ((checksOf s z q).f).map nodeTgt := List.mem_map_of_mem hc
+    unfold checksOf at hm
+    rw [checks_f_tgt] at hm
+    obtain ⟨c0, hc0, he⟩ := List.mem_map.mp hm
+    exact h z hz c0 hc0 r (he.trans hr)
+  · have := congrArg (fun p => p.2.1) (hoff.other z hzy)
+    simp only [proj] at this
+    rw [this] at hc
+    exact h z hz c hc r hr
+
+theorem closed_of_agree {D : List Nat} {a' a : St} (hag : Agree D a' a) (h : Closed D a) : Closed D a' := by
+  intro y hy c hc r sc iv hs
+  have := congrArg (fun p => p.2.1) (hag.on y hy)
+  simp only [proj] at this
+  rw [this] at hc
+  exact h y hy c hc r sc iv hs
+
 /-! ### reloads that leave the resources of `D` unchanged -/
 
 theorem agree_of_fields (D : List Nat) (s' s : St) (hnow : s'.now = s.now) (hmem : s'.mem = s.mem)
